@@ -1,7 +1,9 @@
 // appended to rust/altrios-core/src/track/path_track/speed_point.rs in a scratch worktree; run with
 //   cargo test --offline -p altrios-core --lib demo_c13 -- --nocapture
-// before the fix: restriction_inside_one_interval fails (10 m/s stays in force from 100 m to 1000 m) and 4723 of 20000 random cases differ from the pointwise minimum;
-// after the fix: both pass.
+// pinned code: restriction_inside_one_interval fails (10 m/s stays in force from 100 m to 1000 m); 4723 of 20000 random sets of proper
+//   restrictions differ from the pointwise minimum; zero_length_restriction_changes_nothing fails (20 m/s on [4,7) from a restriction covering
+//   no position) and the brute force with zero-length restrictions aborts on the profile's own validity assertion.
+// after fixes 769b0d2 and the zero-length fix: all three pass, 0 bad cases of 20000 (zero-length restrictions included).
 #[cfg(test)]
 mod demo_c13 {
     use super::*;
@@ -20,6 +22,17 @@ mod demo_c13 {
         assert_eq!(at(&sp, 500.0), 30.0, "the restriction ended at 200 m");
     }
     #[test]
+    fn zero_length_restriction_changes_nothing() {
+        let mut sp = vec![
+            SpeedLimitPoint { offset: 0.0 * uc::M, speed_limit: 50.0 * uc::MPS },
+            SpeedLimitPoint { offset: 7.0 * uc::M, speed_limit: 30.0 * uc::MPS },
+            SpeedLimitPoint { offset: 11.0 * uc::M, speed_limit: 50.0 * uc::MPS },
+        ];
+        sp.insert_speed(&SpeedLimit { offset_start: 4.0 * uc::M, offset_end: 4.0 * uc::M, speed: 20.0 * uc::MPS });
+        println!("ZERO {:?}", sp.iter().map(|p| (p.offset.value, p.speed_limit.value)).collect::<Vec<_>>());
+        assert_eq!(at(&sp, 5.0), 50.0, "a restriction of zero length covers no position");
+    }
+    #[test]
     fn brute_force_against_pointwise_minimum() {
         // deterministic pseudo-random restrictions on a small grid; reference = pointwise minimum
         let mut seed = 12345u64;
@@ -31,7 +44,7 @@ mod demo_c13 {
             let n = 1 + rnd(5);
             let mut ok_order = true;
             for _ in 0..n {
-                let a = rnd(12) as f64; let b = a + 1.0 + rnd(6) as f64; let v = 5.0 + 5.0 * rnd(8) as f64;
+                let a = rnd(12) as f64; let b = a + rnd(6) as f64; let v = 5.0 + 5.0 * rnd(8) as f64;
                 // insert_speed requires: not starting before the first point (0) -- always true here
                 lims.push((a, b, v));
                 sp.insert_speed(&SpeedLimit { offset_start: a * uc::M, offset_end: b * uc::M, speed: v * uc::MPS });
